@@ -86,17 +86,31 @@ POINTS = ["exec.drain.load", "exec.drain.popped", "exec.drain.sub", "exec.state.
           "exec.task.wait_scheduling", "exec.task.wait_spin"]
 
 
+# control configurations whose counterexample is kept as a regression schedule: constants of the configuration
+REGRESSION = {
+    "MC_TaskRemote_old_d11.cfg": dict(Setup="fresh", NW=0, SyncCap=1),
+    "MC_TaskRemote_old_d12.cfg": dict(Setup="fresh", NW=0, SyncCap=1),
+    "MC_TaskRemote_old_d10b.cfg": dict(Setup="hot", NW=1, SyncCap=1),
+    "MC_TaskRemote_old_d10a.cfg": dict(Setup="hot", NW=2, SyncCap=1),
+}
+_DUMPDIR = [None]
+
+
 def _model(job):
     module, cfg, expect = job
     live = "live" in cfg
-    r = vlib.tlc(module, cfg, workers=2, timeout=3000, coverage=(expect == "hold" and not live))
+    extra = None
+    if cfg in REGRESSION and _DUMPDIR[0]:
+        extra = ["-dumpTrace", "json", os.path.join(_DUMPDIR[0], cfg + ".trace.json")]
+    r = vlib.tlc(module, cfg, workers=2, timeout=3000, coverage=(expect == "hold" and not live), extra=extra)
     return job, r
 
 
-def run_models(run, jobs):
-    """Run the TLC jobs (a few at a time); returns the per-module set of actions that fired somewhere."""
+def run_models(run, jobs, dumpdir=None):
+    """Run the TLC jobs (a few at a time); the counterexamples of the REGRESSION controls are dumped as json."""
     fired = {}
     declared = {}
+    _DUMPDIR[0] = dumpdir
     with concurrent.futures.ThreadPoolExecutor(max_workers=3) as ex:
         for (module, cfg, expect), r in ex.map(_model, jobs):
             name = "%s/%s" % (module, cfg)
@@ -323,7 +337,7 @@ def run(run, tier, replay):
             return
         quick = tier == "quick"
         # 1. model checking (invariants, liveness, controls, repairs)
-        run_models(run, QUICK_MODELS if quick else THOROUGH_MODELS)
+        run_models(run, QUICK_MODELS if quick else THOROUGH_MODELS, tmp)
         run.note("repaired_deviations_kept_as_controls",
                  ["D10a SCHEDULING is one bit (f63d8e1)", "D10b no wait_for_scheduling on the tick path (e3e06d8)",
                   "D11 completion inside SETTING_WAKER is never announced (34e0cbc)",
@@ -427,6 +441,24 @@ def run(run, tier, replay):
                 sites[k] = sites.get(k, 0) + v
             missing = [p for p in POINTS if sites.get(p, 0) == 0]
         run.note("remote_points_reached_by_targeted_schedules", targeted)
+        # regression schedules: the counterexamples of the control configurations (the code BEFORE each repair) are
+        # replayed leniently on the current code: the repaired code must not show the old violation (a revert does)
+        rpath = os.path.join(tmp, "regression.jsonl")
+        nreg = 0
+        with open(rpath, "w") as f:
+            for cfg, c in REGRESSION.items():
+                dump = os.path.join(tmp, cfg + ".trace.json")
+                if not os.path.exists(dump):
+                    raise vlib.ToolError("control %s left no counterexample trace" % cfg)
+                sch = trace_to_schedule(json.load(open(dump)), c)
+                sch["lenient"] = True
+                sch["regression_of"] = cfg
+                f.write(json.dumps(sch) + "\n")
+                nreg += 1
+        s, d = replay_bin(run, "replay_remote", [rpath], "remote regression schedules")
+        classify(run, s, d, "remote regression schedules (counterexamples of the repaired defects)")
+        run.add_traces(s["cases"])
+        run.note("remote_regression_schedules_replayed", nreg)
         run.note("remote_schedules_replayed", nrem)
         if missing and not run.violations:
             raise vlib.ToolError("binding lost: hook points never exercised by the replayed schedules: %s" % missing)
